@@ -208,6 +208,30 @@ def scanExp : Bytes → Option (Int × Bool × Bytes)
 def strInfU : Bytes := [73, 110, 102]   -- "Inf"
 def strInfL : Bytes := [105, 110, 102]  -- "inf"
 
+/-- the end of `Float.scan`: apply the binary exponent (range-checked), then the power of five -/
+def assembleBF (neg : Bool) (mant fcount : Nat) (exp : Int) (ten : Bool) : Option BF :=
+  let e2 : Int := exp - fcount
+  let e5 : Int := (if ten then exp else 0) - fcount
+  let gexp : Int := bitlen mant + e2
+  if gexp < minExp ∨ gexp > maxExp then none                      -- "exponent overflow"
+  else if e5 = 0 then
+    let r := roundNE 64 mant false                                 -- z.round(0)
+    some (if e2 + r.2 + bitlen r.1 > maxExp then .inf neg else .fin neg r.1 (e2 + r.2))
+  else if e5 < 0 then some (BF.quo 64 (.fin neg mant e2) (pow5 e5.natAbs))
+  else some (BF.mul 64 (.fin neg mant e2) (pow5 e5.natAbs))
+
+/-- `Float.scan` after the sign, plus `Parse`'s "entire string must have been consumed" -/
+def parseUnsigned (neg : Bool) (body : Bytes) : Option BF :=
+  match scanMant body 0 0 none with
+  | (mant, cnt, fcount, rest) =>
+    if cnt = 0 then none                                           -- "number has no digits"
+    else match scanExp rest with
+      | none => none
+      | some (exp, ten, rest2) =>
+        if rest2 ≠ [] then none
+        else if mant = 0 then some (.zero neg)
+        else assembleBF neg mant fcount exp ten
+
 /-- `big.ParseFloat(s, 10, 64, ToNearestEven)`; `none` = error -/
 def parseBF (s : Bytes) : Option BF :=
   if s = strInfU ∨ s = strInfL then some (.inf false)
@@ -217,24 +241,9 @@ def parseBF (s : Bytes) : Option BF :=
     match s with
     | [] => none
     | c :: cs =>
-      let (neg, body) := if c = 45 then (true, cs) else if c = 43 then (false, cs) else (false, c :: cs)
-      let (mant, cnt, fcount, rest) := scanMant body 0 0 none
-      if cnt = 0 then none
-      else match scanExp rest with
-        | none => none
-        | some (exp, ten, rest2) =>
-          if mant = 0 then (if rest2 = [] then some (.zero neg) else none)
-          else
-            let e2 : Int := exp - fcount
-            let e5 : Int := (if ten then exp else 0) - fcount
-            let gexp : Int := bitlen mant + e2
-            if gexp < minExp ∨ gexp > maxExp then none
-            else if rest2 ≠ [] then none
-            else if e5 = 0 then
-              let (m', k) := roundNE 64 mant false
-              some (if e2 + k + bitlen m' > maxExp then .inf neg else .fin neg m' (e2 + k))
-            else if e5 < 0 then some (BF.quo 64 (.fin neg mant e2) (pow5 e5.natAbs))
-            else some (BF.mul 64 (.fin neg mant e2) (pow5 e5.natAbs))
+      if c = 45 then parseUnsigned true cs
+      else if c = 43 then parseUnsigned false cs
+      else parseUnsigned false (c :: cs)
 
 /-- `big.NewFloat(x)` for a non-NaN float64 -/
 def BF.ofF64 (b : Nat) : BF :=
